@@ -208,6 +208,10 @@ func Parse(input string) (Version, error) {
 }
 
 func parseInto(result *Version, input string) error {
+	/* The receiver may already hold a version (a Decoder loop reuses its
+	 * struct): parts the input does not mention must not survive. */
+	*result = Version{}
+
 	trimmed := strings.TrimSpace(input)
 	if trimmed == "" {
 		return fmt.Errorf("version string is empty")
